@@ -4,6 +4,7 @@ use super::{c01, e2e, sim_case, SimCase};
 use crate::engine::*;
 use crate::simnet::gen::GenOpts;
 use crate::simnet::*;
+use crate::{vensure, vfail};
 use proptest::prelude::*;
 use proptest::strategy::BoxedStrategy;
 use serde::{Deserialize, Serialize};
@@ -182,6 +183,220 @@ fn two_test(c: &TwoCase, obs: &mut Obs) -> CheckResult {
     Ok(())
 }
 
+// ---------------------------------------------------------------------------------------------
+// the statement as an invariance law on the real round state (`TracerState`), over long histories
+// with wrap-around: a response that is not the first answer to a probe of the round in progress
+// leaves the probes and the target / progress bookkeeping exactly as they were
+
+#[derive(Clone, Debug, Serialize, Deserialize)]
+pub enum SOp {
+    /// issue n probes (while the round has capacity and a TTL is left)
+    Send(u8),
+    /// first response to the pick-th still awaited probe of this round
+    Genuine { pick: u16, target: bool },
+    /// another response to the pick-th already answered probe of this round
+    Duplicate { pick: u16, target: bool },
+    /// response to the pick-th probe of the previous round
+    PrevRound { pick: u16, target: bool },
+    /// response naming (next sequence to issue + offset): not sent in this round (so far)
+    Unsent { offset: u16, target: bool },
+    /// response naming an arbitrary sequence number
+    Any { seq: u16, target: bool },
+    Advance,
+}
+
+#[derive(Clone, Debug, Serialize, Deserialize)]
+pub struct StateCase {
+    pub init: u16,
+    pub regime: super::c07::Regime,
+    pub ops: Vec<SOp>,
+}
+
+fn state_strat() -> BoxedStrategy<StateCase> {
+    use super::c07::Regime;
+    let op = prop_oneof![
+        6 => prop_oneof![3 => 1u8..=12, 2 => 1u8..=40, 1 => 30u8..=60].prop_map(SOp::Send),
+        4 => (any::<u16>(), prop::bool::weighted(0.2)).prop_map(|(pick, target)| SOp::Genuine { pick, target }),
+        2 => (any::<u16>(), prop::bool::weighted(0.2)).prop_map(|(pick, target)| SOp::Duplicate { pick, target }),
+        2 => (any::<u16>(), prop::bool::weighted(0.2)).prop_map(|(pick, target)| SOp::PrevRound { pick, target }),
+        4 => (prop_oneof![4 => 0u16..=60, 1 => 0u16..=600], prop::bool::weighted(0.2)).prop_map(|(offset, target)| SOp::Unsent { offset, target }),
+        1 => (any::<u16>(), prop::bool::weighted(0.2)).prop_map(|(seq, target)| SOp::Any { seq, target }),
+        3 => Just(SOp::Advance),
+    ];
+    (
+        // initial sequences from which the wrap is reached within a case, and the usual ones
+        prop_oneof![3 => 64300u16..=64511, 1 => Just(64511u16), 1 => crate::simnet::gen::initial_sequence()],
+        prop_oneof![2 => Just(Regime::General254), 2 => Just(Regime::DublinV6), 1 => Just(Regime::Tcp512)],
+        proptest::collection::vec(op, 1..=260),
+    )
+        .prop_map(|(init, regime, ops)| StateCase { init, regime, ops })
+        .boxed()
+}
+
+fn state_test(c: &StateCase, obs: &mut Obs) -> CheckResult {
+    use std::net::{IpAddr, Ipv4Addr};
+    use std::time::Duration;
+    use trippy_core::verif::VerifTracerState;
+    use trippy_core::{ProbeStatus, Sequence, TimeToLive};
+    let mut st = VerifTracerState::new(super::c07::config(c.init, c.regime));
+    let snapshot = |st: &VerifTracerState| {
+        (
+            format!("{:?}", st.probes()),
+            st.max_received_ttl().map(|t| t.0),
+            st.target_ttl().map(|t| t.0),
+            st.target_found(),
+            st.received_time(),
+            st.ttl().0,
+        )
+    };
+    // sequences issued in the round in progress (with their TTL), those already answered, and
+    // the previous round's
+    let mut cur: Vec<(u16, u8)> = vec![];
+    let mut answered: Vec<u16> = vec![];
+    let mut prev: Vec<u16> = vec![];
+    let mut clock = 0u64;
+    let (mut wraps, mut stale_named, mut classes) = (0u32, 0u32, std::collections::BTreeSet::new());
+    // sequences of earlier rounds that were never answered (candidates for stale slots)
+    let mut ever_unanswered: std::collections::BTreeSet<u16> = std::collections::BTreeSet::new();
+    let host = IpAddr::V4(Ipv4Addr::new(10, 1, 1, 1));
+    for (i, op) in c.ops.iter().enumerate() {
+        clock += 1000;
+        let now = super::c07::t0() + Duration::from_nanos(clock);
+        let mut respond = |st: &mut VerifTracerState, seq: u16, target: bool| {
+            // Strategy::recv_response: only sequences of the round in progress reach complete_probe
+            if st.in_round(Sequence(seq)) {
+                st.complete_probe(Sequence(seq), host, target, now);
+            }
+        };
+        match *op {
+            SOp::Send(n) => {
+                for _ in 0..n {
+                    if !st.round_has_capacity() || st.ttl().0 >= 254 {
+                        break;
+                    }
+                    let p = st.next_probe(now);
+                    cur.push((p.sequence.0, p.ttl.0));
+                }
+            }
+            SOp::Advance => {
+                let before_first = cur.first().map(|x| x.0);
+                for (s, _) in &cur {
+                    if !answered.contains(s) {
+                        ever_unanswered.insert(*s);
+                    }
+                }
+                prev = cur.iter().map(|x| x.0).collect();
+                cur.clear();
+                answered.clear();
+                st.advance_round(TimeToLive(1));
+                let mut peek = st.clone();
+                if peek.round_has_capacity() {
+                    let next = peek.next_probe(now).sequence.0;
+                    if next == c.init && before_first.is_some_and(|f| f != c.init || !prev.is_empty()) && prev.last().is_some_and(|l| l.wrapping_add(1) != next) {
+                        wraps += 1;
+                    }
+                }
+            }
+            SOp::Genuine { pick, target } => {
+                let awaiting: Vec<(u16, u8)> = cur.iter().copied().filter(|(s, _)| !answered.contains(s)).collect();
+                if awaiting.is_empty() {
+                    continue;
+                }
+                let (seq, ttl) = awaiting[usize::from(pick) * awaiting.len() >> 16];
+                let before = snapshot(&st);
+                let others_before: Vec<String> = st.probes().iter().map(|p| format!("{p:?}")).collect();
+                respond(&mut st, seq, target);
+                answered.push(seq);
+                classes.insert("genuine");
+                let idx = cur.iter().position(|x| x.0 == seq).unwrap_or(0);
+                let probes = st.probes();
+                vensure!(probes.len() == others_before.len(), "state:probe-count", "step {i}: a response changed the number of probes of the round");
+                match &probes[idx] {
+                    ProbeStatus::Complete(p) => vensure!(p.sequence.0 == seq && p.ttl.0 == ttl && p.host == host && p.received == now, "state:genuine-not-recorded", "step {i}: probe for sequence {seq} completed as {p:?}"),
+                    other => vfail!("state:genuine-not-recorded", "step {i}: first response to sequence {seq} (ttl {ttl}) left the probe as {other:?}"),
+                }
+                for (k, p) in probes.iter().enumerate() {
+                    if k != idx {
+                        vensure!(format!("{p:?}") == others_before[k], "state:other-probe-changed", "step {i}: response to sequence {seq} changed probe #{k}");
+                    }
+                }
+                vensure!(st.received_time() == Some(now), "state:received-time", "step {i}: received_time {:?} after a genuine response at {now:?}", st.received_time());
+                vensure!(st.max_received_ttl().map(|t| t.0) == Some(before.1.unwrap_or(0).max(ttl)), "state:max-received", "step {i}: max_received_ttl {:?} after ttl {ttl} (was {:?})", st.max_received_ttl(), before.1);
+                vensure!(st.target_found() == (before.3 || target), "state:target-found", "step {i}: target_found {} after a response with is_target={target} (was {})", st.target_found(), before.3);
+            }
+            SOp::Duplicate { pick, target } | SOp::PrevRound { pick, target } | SOp::Unsent { offset: pick, target } | SOp::Any { seq: pick, target } => {
+                let (seq, label) = match op {
+                    SOp::Duplicate { .. } => {
+                        if answered.is_empty() {
+                            continue;
+                        }
+                        (answered[usize::from(pick) * answered.len() >> 16], "duplicate")
+                    }
+                    SOp::PrevRound { .. } => {
+                        if prev.is_empty() {
+                            continue;
+                        }
+                        let s = prev[usize::from(pick) * prev.len() >> 16];
+                        // a wrap may re-issue the number: then it is a sequence of this round
+                        if cur.iter().any(|x| x.0 == s) {
+                            continue;
+                        }
+                        (s, "previous-round")
+                    }
+                    SOp::Unsent { .. } => {
+                        let next = cur.last().map_or_else(
+                            || {
+                                let mut peek = st.clone();
+                                if peek.round_has_capacity() { peek.next_probe(now).sequence.0 } else { c.init }
+                            },
+                            |l| l.0.wrapping_add(1),
+                        );
+                        let Some(s) = next.checked_add(pick) else { continue };
+                        (s, "never-sent")
+                    }
+                    _ => {
+                        if cur.iter().any(|x| x.0 == pick) {
+                            continue;
+                        }
+                        (pick, "arbitrary")
+                    }
+                };
+                if label == "never-sent" && ever_unanswered.contains(&seq) {
+                    stale_named += 1;
+                }
+                let before = snapshot(&st);
+                respond(&mut st, seq, target);
+                let after = snapshot(&st);
+                classes.insert(label);
+                vensure!(
+                    before == after,
+                    format!("state:{label}-changed-state"),
+                    "step {i}: a {label} response naming sequence {seq} (round in progress issued {:?}..={:?}) changed the round state: probes/max-received/target-ttl/target-found/received-time/ttl before {:?} after {:?}",
+                    cur.first().map(|x| x.0),
+                    cur.last().map(|x| x.0),
+                    (&before.1, &before.2, &before.3, &before.4, &before.5),
+                    (&after.1, &after.2, &after.3, &after.4, &after.5)
+                );
+            }
+        }
+    }
+    for l in &classes {
+        obs.class(format!("resp:{l}"));
+    }
+    if wraps > 0 {
+        obs.class("with-wrap");
+    }
+    if stale_named > 0 {
+        obs.class("never-sent-names-unanswered-sequence-of-earlier-round");
+    }
+    if classes.len() >= 3 {
+        obs.class("nontrivial");
+        obs.nontrivial(&(c.init, format!("{:?}", c.regime), classes.len(), wraps, stale_named, c.ops.len(), hash64(&format!("{:?}", c.ops))));
+    }
+    obs.sample(json!({"init": c.init, "regime": format!("{:?}", c.regime), "ops": c.ops.len(), "wraps": wraps, "classes": classes, "stale_named": stale_named}));
+    Ok(())
+}
+
 pub fn check() -> PropertyCheck {
     PropertyCheck {
         id: "C03",
@@ -200,6 +415,14 @@ pub fn check() -> PropertyCheck {
                 strat: adv_strat,
                 test: adv_test,
                 max_shrink: 3000,
+            }),
+            Box::new(Pbt {
+                name: "state-history",
+                quick: 60_000,
+                thorough: 2_000_000,
+                strat: state_strat,
+                test: state_test,
+                max_shrink: 4000,
             }),
             Box::new(Pbt {
                 name: "two-tracers",
